@@ -91,7 +91,9 @@ def gen_case(rng, systems):
                 v = rng.choice([Fr(1), Fr(6)])
                 d["default"] = float(v)
                 tab[0] = mono_of(v, dens_scale(eff))
-            kw["density"] = d
+            items = list(d.items())          # the order of the keys carries no meaning
+            rng.shuffle(items)
+            kw["density"] = dict(items)
         elif mode == "explicit-unit":
             other = rng.choice(systems)
             v = rng.choice([Fr(2), Fr(3, 2)])
@@ -112,7 +114,9 @@ def gen_case(rng, systems):
             if rng.random() < 0.4:
                 cd["default"] = True
                 ctab[0] = True
-            kw["chstt"] = cd
+            items = list(cd.items())
+            rng.shuffle(items)
+            kw["chstt"] = dict(items)
         species.append(kw)
         dens_tab.append(tab)
         chs_tab.append(ctab)
@@ -250,6 +254,8 @@ def run(tier, selftest=False, only=None):
             _case(rep, spec, impl, exp, tag)
     with rep.guard("position-forms", None):
         large_grid_positions(rep, rng)
+    with rep.guard("omitted-space", None):
+        omitted_space_checks(rep, systems)
     history_checks(rep, tier, seed, rng)
     rep.traces = len(cases)
     rep.sample({"spec_case": cases[0][0], "expected_default_state": [float(UO.mono(m)) for m in out[0]["state"]]})
@@ -392,6 +398,28 @@ def _case(rep, spec, impl, exp, tag):
                 break
 
 
+def omitted_space_checks(rep, systems):
+    """A system description without a "space" entry stands for one cell of volume 1 in the system's own units (documented
+    default of the dictionary reader): the default state is then density x 1 [space unit]^3 like for any other space."""
+    from strengths import rdsystem_from_dict
+    for us in systems:
+        d = {"units": {"space": us[0], "time": us[1], "quantity": us[2]},
+             "network": {"species": [{"label": "A", "density": 3.0}, {"label": "B", "density": "2 molecule/µm3"}, {"label": "C"}],
+                         "reactions": []}}
+        rep.case(["omitted-space", list(us)])
+        tag = {"description": d}
+        try:
+            system = rdsystem_from_dict(json.loads(json.dumps(d)))
+            got = si_state(system)
+        except Exception as ex:  # noqa
+            rep.violation("default", "layout:omitted-space-exception", dict(tag, exc=repr(ex)[:200]))
+            continue
+        cell_m3 = Fr(10) ** (3 * SP_EXP[us[0]])
+        want = [float(UO.mono(mono_of(Fr(3), qty_scale(us)))), float(2 * cell_m3 / Fr(10) ** (3 * SP_EXP["µm"])), 0.0]
+        if len(got) != 3 or not all(close(a, b) for a, b in zip(got, want)):
+            rep.violation("default", "layout:default-state:omitted-space", dict(tag, got=got, spec=want))
+
+
 # ---- histories of one system object (specs/SystemEdit.tla): TLC generates call sequences, the object is driven along them ----
 SE_LABELS = ["A", "B"]
 SE_ENVS = ["a", "b"]
@@ -405,7 +433,9 @@ def _tab_arg(tab, conv, rng):
     present = {k: conv(t["v"]) for k, t in zip(keys, tab) if "absent" not in t}
     if len(present) == len(keys) and len(set(present.values())) == 1 and rng.random() < 0.7:
         return present["default"]
-    return present
+    items = list(present.items())            # the order of the keys carries no meaning
+    rng.shuffle(items)
+    return dict(items)
 
 
 def se_build(prog, cfg, rng):
@@ -501,13 +531,23 @@ def se_replay(rep, prog, cfg, rng, tag):
                     system.space.cell_vol = rng.choice([float(a["v"]), a["v"], "%d µm3" % a["v"]])
             elif op == "assign_state":
                 arr = [float((i * a["k"]) % 4) for i in range(1, len(SE_LABELS) * N + 1)]
-                if a["u"] == "bare":
-                    system.state = rng.choice([arr, np.array(arr)])
+                # (the system keeps its own array: what the caller does to the object it handed over afterwards changes nothing)
+                given = rng.choice([arr, np.array(arr)]) if a["u"] == "bare" else UnitArray(arr, a["u"])
+                system.state = given
+                if isinstance(given, np.ndarray):
+                    given[:] = -7.0
+                elif isinstance(given, UnitArray):
+                    given.value[:] = -7.0
                 else:
-                    system.state = UnitArray(arr, a["u"])
+                    given[:] = [-7.0] * len(given)
             elif op == "assign_chem":
                 arr = [(i + a["k"]) % 2 for i in range(1, len(SE_LABELS) * N + 1)]
-                system.chemostats = rng.choice([arr, np.array(arr), [bool(x) for x in arr]])
+                given = rng.choice([arr, np.array(arr), np.array(arr, dtype=int), [bool(x) for x in arr]])
+                system.chemostats = given
+                if isinstance(given, np.ndarray):
+                    given[:] = 1 - given
+                else:
+                    given[:] = [1 - int(x) for x in given]
             elif op == "copy":
                 kept.append((system, k, (prog["steps"][k - 1] if k else prog)))
                 system = system.copy()
